@@ -198,7 +198,7 @@ type StageDefs struct {
 func SplitDefs(prog *mrogen.Program, st *mrogen.Stage, args *jsonx.Obj, o *Opts) *StageDefs {
 	h := o.Salt + canonForHash(args, true)
 	r := seed(st.Name, "split", h)
-	choices := []int{0, 1, 2, 2, 3, 3, 11}
+	choices := []int{0, 1, 2, 2, 3, 3, 10, 11}
 	if len(o.ChunkChoices) > 0 {
 		choices = o.ChunkChoices
 	}
